@@ -446,7 +446,7 @@ func addMergeCases(o *vcoq.Out, seqs [][]act, tag string) {
 		}
 		jo := make([]any, len(obs))
 		tags := []string{tag}
-		merged, cancelled := 0, false
+		merged := 0
 		nsent, ngot := 0, 0
 		for k, ob := range obs {
 			jo[k] = ob.js()
@@ -470,7 +470,6 @@ func addMergeCases(o *vcoq.Out, seqs [][]act, tag string) {
 			merged = nsent - ngot
 			tags = append(tags, fmt.Sprintf("merged:%d", min64(int64(merged), 5)))
 		}
-		_ = cancelled
 		o.Add(vcoq.Case{
 			Coq:        "KMerge " + coqActs(acts) + " " + coqObs(obs),
 			JSON:       map[string]any{"kind": "mergeCollectionExcess", "actions": ja, "observed": jo},
